@@ -186,11 +186,12 @@ void event(const char* fmt, ...) {
 
 void violate(VKind k, const std::string& detail, bool failstop) {
     int saved_errno = errno;
-    if (g.violations.size() < 16) {
+    int same = 0; for (auto& x : g.violations) if (x.kind == k) same++;
+    if (g.violations.size() < 32 && same < 3) {   // a few of each kind: a flood of one kind must not crowd out the others
         Violation v; v.kind = k; v.op = g.cur ? g.cur->op : -1; v.detail = detail;
         g.violations.push_back(v);
     }
-    event("VIOLATION %s op=%d %s", vkind_name(k), g.cur ? g.cur->op : -1, detail.c_str());
+    if (same < 8) event("VIOLATION %s op=%d %s", vkind_name(k), g.cur ? g.cur->op : -1, detail.c_str());
     errno = saved_errno;
     if (failstop) {
         g.abort_run = true;
@@ -199,7 +200,27 @@ void violate(VKind k, const std::string& detail, bool failstop) {
     }
 }
 
+// Writable static data of the library objects (their .data/.bss are renamed to these sections by the build; today they hold the
+// constant default-manager table only). One run must not inherit state from the run before it in the same worker process - a
+// changed library that keeps a cache or counter there would otherwise make runs depend on each other and break replay - so the
+// initial contents are restored at the start of every run.
+extern "C" {
+extern char __start_urilib_data[] __attribute__((weak)), __stop_urilib_data[] __attribute__((weak));
+extern char __start_urilib_bss[] __attribute__((weak)), __stop_urilib_bss[] __attribute__((weak));
+}
+static std::string g_lib_data0, g_lib_bss0; static bool g_lib_snap = false;
+unsigned long long g_lib_static_resets = 0;
+static void lib_statics_reset() {
+    char* d0 = __start_urilib_data; char* d1 = __stop_urilib_data; char* b0 = __start_urilib_bss; char* b1 = __stop_urilib_bss;
+    if (!g_lib_snap) { if (d0 && d1 > d0) g_lib_data0.assign(d0, (size_t)(d1 - d0)); if (b0 && b1 > b0) g_lib_bss0.assign(b0, (size_t)(b1 - b0)); g_lib_snap = true; return; }
+    bool changed = false;
+    if (!g_lib_data0.empty() && memcmp(d0, g_lib_data0.data(), g_lib_data0.size()) != 0) { memcpy(d0, g_lib_data0.data(), g_lib_data0.size()); changed = true; }
+    if (!g_lib_bss0.empty() && memcmp(b0, g_lib_bss0.data(), g_lib_bss0.size()) != 0) { memcpy(b0, g_lib_bss0.data(), g_lib_bss0.size()); changed = true; }
+    if (changed) g_lib_static_resets++;
+}
+
 void run_reset(uint64_t junk_seed, ReusePolicy reuse, int redzone) {
+    lib_statics_reset();
     arenas_reset();
     g.reuse = reuse; g.junk_seed = junk_seed; g.redzone = redzone < 16 ? 16 : redzone;
     g.blocks.clear(); g_blk_at.clear(); g_free_by_size.clear();
@@ -211,7 +232,7 @@ void run_reset(uint64_t junk_seed, ReusePolicy reuse, int redzone) {
     g.main_ctx.expect_mgr = -1; g.main_ctx.fault = FaultPlan(); g.main_ctx.req_count = 0; g.main_ctx.fired = 0;
     g.conc = false; g.yield_hook = nullptr;
     g.loads = g.stores = g.edges = 0;
-    g.giant_lo = g.giant_hi = 0;
+    g.giant_lo = g.giant_hi = 0; g.load_faults = 0;
     g.step_budget = 30000000ull;
 }
 
@@ -434,7 +455,12 @@ static void report_access(uintptr_t a, size_t n, bool store, ArenaId id, uint8_t
         else k = V_READ_OUT_OF_WINDOW;
     }
     snprintf(buf, sizeof buf, "%s of %zu byte(s) at %s", store ? "store" : "load", n, addr_name((void*)a).c_str());
-    violate(k, buf, true);
+    // a load from released memory does not end the run: the memory is mapped and poisoned, and what the library does with the stale
+    // value (a second release, a wild pointer) is what the ledger properties judge
+    // (the same holds for every load inside the arenas - beyond the window, from a dead source, from a red zone: the byte is there,
+    //  the violation is recorded, and what the library makes of the value is judged by the property that owns the consequence)
+    g.load_faults++;
+    violate(k, buf, store);
 }
 
 void check_access(uintptr_t a, size_t n, bool store) {
@@ -642,14 +668,14 @@ int sim_memcmp(const void* a, const void* b, size_t n) {
 }
 size_t sim_strlen(const char* s) {
     if ((uintptr_t)s >= g.giant_lo && (uintptr_t)s < g.giant_hi) return strlen(s);   // giant read-only mirror region: wholly readable
-    size_t i = 0;
-    for (;; i++) { check_access((uintptr_t)(s + i), 1, false); if (g.abort_run || !s[i]) break; }
+    size_t i = 0; const unsigned long long lf = g.load_faults;
+    for (;; i++) { check_access((uintptr_t)(s + i), 1, false); if (g.abort_run || !s[i]) break; if (g.load_faults != lf && i > 4096) { violate(V_WILD_ACCESS, "string scan ran 4096 characters past the readable window without finding a terminator", true); break; } }
     return i;
 }
 size_t sim_wcslen(const wchar_t* s) {
     if ((uintptr_t)s >= g.giant_lo && (uintptr_t)s < g.giant_hi) return wcslen(s);
-    size_t i = 0;
-    for (;; i++) { check_access((uintptr_t)(s + i), sizeof(wchar_t), false); if (g.abort_run || !s[i]) break; }
+    size_t i = 0; const unsigned long long lf = g.load_faults;
+    for (;; i++) { check_access((uintptr_t)(s + i), sizeof(wchar_t), false); if (g.abort_run || !s[i]) break; if (g.load_faults != lf && i > 4096) { violate(V_WILD_ACCESS, "string scan ran 4096 characters past the readable window without finding a terminator", true); break; } }
     return i;
 }
 int sim_strncmp(const char* a, const char* b, size_t n) {
